@@ -332,7 +332,7 @@ func init() {
 		RealStub: map[string]string{"verify.RawTdxQuote / SupportedTcbLevelsFromCollateral": "real", "pcs JSON + SGX extension decoding": "real", "Intel CA, TCB signer, platform": "stub (world, timeline)", "reference model": "world.EvalTcb (transcription of the property)"},
 		Runs: func(tier string) int {
 			if tier == "thorough" {
-				return 20000
+				return 60000
 			}
 			return 1500
 		},
